@@ -24,6 +24,19 @@ def Levelled (parent : Nat → Option Nat) (levels : List (List (Upd α))) : Pro
   levels.Pairwise (fun hi lo => ∀ a ∈ hi, ∀ b ∈ lo, parent a.node ≠ some b.node) ∧
   ∀ L ∈ levels, ∀ a ∈ L, ∀ b ∈ L, parent a.node ≠ some b.node
 
+/-- the weaker arrangement that suffices since the second sweep walks a level backwards (fix 4d8d1bf): in the order
+    the updaters are listed (level by level) no directory comes before its parent — a parent may share the level of
+    its children when it is listed first (cgreconcile: kubepods, burstable, besteffort). -/
+def ParentFirst (parent : Nat → Option Nat) (levels : List (List (Upd α))) : Prop :=
+  levels.flatten.Pairwise (fun a b => parent a.node ≠ some b.node)
+
+theorem levelled_parentFirst {parent : Nat → Option Nat} {levels : List (List (Upd α))}
+    (hlev : Levelled parent levels) : ParentFirst parent levels := by
+  unfold ParentFirst
+  rw [List.pairwise_flatten]
+  refine ⟨fun L hL => ?_, hlev.1⟩
+  exact List.pairwise_of_forall_mem_list (fun a ha b hb => hlev.2 L hL a ha b hb)
+
 /-- hypotheses on one batch relative to the file contents `old` at its start. -/
 structure BatchOK (levels : List (List (Upd α))) (old T : Nat → α) : Prop where
   /-- every updater carries a value the validator accepts, namely `T` of its directory -/
@@ -130,7 +143,7 @@ include hD hm
 variable (levels : List (List (Upd α))) (s : St α) (T : Nat → α)
 
 omit hD hm in
-theorem mem_nodes_rev (n : Nat) : n ∈ nodes levels.reverse.flatten ↔ n ∈ nodes levels.flatten :=
+theorem mem_nodes_rev (n : Nat) : n ∈ nodes (sweep2 levels) ↔ n ∈ nodes levels.flatten :=
   (nodes_perm (reverse_flatten_perm levels)).mem_iff
 
 theorem J1_start (hc : CacheOK s) (hb : BatchOK levels s.files T) :
@@ -147,14 +160,14 @@ theorem J1_end (hc : CacheOK s) (hb : BatchOK levels s.files T) :
     (J1_start hD hm levels s T hc hb)
 
 theorem J2_start (hc : CacheOK s) (hb : BatchOK levels s.files T) :
-    J2 D s.files T levels.reverse.flatten (pass1 D exp levels.flatten { s with skip := [] }).1 := by
+    J2 D s.files T (sweep2 levels) (pass1 D exp levels.flatten { s with skip := [] }).1 := by
   obtain ⟨g1, g2, _, _, g5⟩ := J1_end hD hm exp levels s T hc hb
   refine ⟨g1, g2, ?_, ?_, ?_⟩
   · exact (nodes_perm (reverse_flatten_perm levels)).nodup_iff.mpr hb.nodup
   · intro u hu; exact hb.tgt u ((reverse_flatten_perm levels).mem_iff.mp hu)
   · intro n
     rw [g5 n]
-    by_cases h : n ∈ nodes levels.reverse.flatten
+    by_cases h : n ∈ nodes (sweep2 levels)
     · simp [h]
     · have h' : n ∉ nodes levels.flatten := fun x => h ((mem_nodes_rev levels n).mpr x)
       simp only [h, nodes_nil, List.not_mem_nil, if_false]
@@ -233,30 +246,22 @@ theorem no_redundant_write (hrefl : ∀ a, D.same a a = true) (hc : CacheOK s) (
   · exact w1 w hw
   · exact w2 w hw
 
-/-- **every_prefix_valid**: if the hierarchy is valid before the batch and the target is valid, then after
-    every single file write — every prefix of the write sequence, i.e. every crash point — the hierarchy
-    is valid.  Holds for any tree depth/shape, any values, fresh or expired cache entries. -/
-theorem every_prefix_valid {le : α → α → Prop} (hO : DomOrd D le) (parent : Nat → Option Nat)
-    (hc : CacheOK s) (hb : BatchOK levels s.files T) (hlev : Levelled parent levels)
+/-- **every_prefix_valid_parent_first**: the crash-point theorem under the weaker arrangement `ParentFirst` (no
+    directory is listed before its parent; a parent may sit FIRST in the level of its children): the top-down sweep
+    meets a parent before its children, the bottom-up sweep - every level backwards - meets it after them. -/
+theorem every_prefix_valid_parent_first {le : α → α → Prop} (hO : DomOrd D le) (parent : Nat → Option Nat)
+    (hc : CacheOK s) (hb : BatchOK levels s.files T) (hpf : ParentFirst parent levels)
     (hold : Valid parent le s.files) (htgt : Valid parent le T) :
     ∀ k, Valid parent le (applyWrites s.files ((runBatch D exp levels s).2.take k)) := by
   -- order facts for the two iteration orders
-  have pw1 : levels.flatten.Pairwise (fun a b => parent a.node ≠ some b.node) := by
-    rw [List.pairwise_flatten]
-    refine ⟨fun L hL => ?_, hlev.1⟩
-    exact List.pairwise_of_forall_mem_list (fun a ha b hb => hlev.2 L hL a ha b hb)
-  have pw2 : levels.reverse.flatten.Pairwise (fun a b => parent b.node ≠ some a.node) := by
-    rw [List.pairwise_flatten]
-    refine ⟨fun L hL => ?_, ?_⟩
-    · have hL' : L ∈ levels := by simpa using hL
-      exact List.pairwise_of_forall_mem_list (fun a ha b hb => hlev.2 L hL' b hb a ha)
-    · rw [List.pairwise_reverse]
-      exact hlev.1.imp (fun h x hx y hy => h y hy x hx)
+  have pw1 : levels.flatten.Pairwise (fun a b => parent a.node ≠ some b.node) := hpf
+  have pw2 : (sweep2 levels).Pairwise (fun a b => parent b.node ≠ some a.node) := by
+    rw [sweep2_eq, List.pairwise_reverse]; exact hpf
   have i1 : I1 D parent s.files T levels.flatten { s with skip := [] } := by
     refine ⟨J1_start hD hm levels s T hc hb, ?_, pw1⟩
     intro c p _ _ hcn
     rw [hb.out c hcn]; exact eff_self hD _
-  have i2 : I2 D parent s.files T levels.reverse.flatten (pass1 D exp levels.flatten { s with skip := [] }).1 := by
+  have i2 : I2 D parent s.files T (sweep2 levels) (pass1 D exp levels.flatten { s with skip := [] }).1 := by
     refine ⟨J2_start hD hm exp levels s T hc hb, ?_, pw2⟩
     intro c p _ _ hpn
     have h' : p ∉ nodes levels.flatten := fun x => hpn ((mem_nodes_rev levels p).mpr x)
@@ -280,6 +285,15 @@ theorem every_prefix_valid {le : α → α → Prop} (hO : DomOrd D le) (parent 
       (pass1 D exp levels.flatten { s with skip := [] }).1.files := a1
   rw [a1']
   exact b k'
+
+/-- **every_prefix_valid**: if the hierarchy is valid before the batch and the target is valid, then after
+    every single file write — every prefix of the write sequence, i.e. every crash point — the hierarchy
+    is valid.  Holds for any tree depth/shape, any values, fresh or expired cache entries. -/
+theorem every_prefix_valid {le : α → α → Prop} (hO : DomOrd D le) (parent : Nat → Option Nat)
+    (hc : CacheOK s) (hb : BatchOK levels s.files T) (hlev : Levelled parent levels)
+    (hold : Valid parent le s.files) (htgt : Valid parent le T) :
+    ∀ k, Valid parent le (applyWrites s.files ((runBatch D exp levels s).2.take k)) :=
+  every_prefix_valid_parent_first hD hm exp levels s T hO parent hc hb (levelled_parentFirst hlev) hold htgt
 
 /-- a history of batches, each with its intended assignment: batch i+1 starts from the target of batch i. -/
 def HistOK (parent : Nat → Option Nat) (le : α → α → Prop) :
